@@ -6,6 +6,7 @@ import json, os, re, shutil, subprocess, sys, tempfile, glob
 from concurrent.futures import ThreadPoolExecutor
 args = [a for a in sys.argv[1:] if not a.startswith('-')]
 verbose = '-v' in sys.argv
+own_only = '--own' in sys.argv
 dirs = sorted(d for d in glob.glob('/verif/neutral/C*') if os.path.isdir(d) and (not args or os.path.basename(d) in args))
 def one(d):
     nid = os.path.basename(d)
@@ -15,7 +16,8 @@ def one(d):
         p = subprocess.run(f"cd {w} && git apply --whitespace=nowarn {d}/patch.diff", shell=True, capture_output=True, text=True)
         if p.returncode != 0:
             return nid, None
-        p = subprocess.run(f"/verif/bin/verifchk all --repo {w} 2>&1", shell=True, capture_output=True, text=True)
+        sel_props = f" --props {nid.split('-')[0]}" if own_only else ""
+        p = subprocess.run(f"/verif/bin/verifchk all --repo {w}{sel_props} 2>&1", shell=True, capture_output=True, text=True)
         out = []
         lines = p.stdout.splitlines()
         for i, l in enumerate(lines):
@@ -29,7 +31,7 @@ def one(d):
         return nid, out
     finally:
         shutil.rmtree(w, ignore_errors=True)
-with ThreadPoolExecutor(6) as ex:
+with ThreadPoolExecutor(int(os.environ.get('WORKERS', '6'))) as ex:
     res = list(ex.map(one, dirs))
 clean = 0
 for nid, out in res:
